@@ -29,4 +29,46 @@ META = {
         "note": "Trusted: Lean kernel; checksum function abstract (32-byte output); collision-freeness hypothesis for changed payloads. Segment level; the multi-segment replay (log level) statement is part of the Store model.",
         "technique": "Lean 4 theorems (induction over the record stream) + differential correspondence check on real segment files cut/flipped at every offset",
     },
+    "C01": {
+        "text": "Index half proved for every history: lookups, ascending iteration and presence reports of the key map equal the plain ordered map (induction over the op list on top of the index invariant); range reads by C17. The file-content half is tied by comparing every read and the full CAS listing after every step of generated histories (all key types, N, both sync modes) between the real store and the Lean Store model. " + _corr,
+        "design_ref": "DESIGN.md §7 C01, §4 P2",
+        "note": "Trusted: Lean kernel; hand model Index/Store; BTreeMap as sorted list under the key order's laws; collision-freeness; store-level file-content invariant not yet a theorem (correspondence).",
+        "technique": "Lean 4 refinement proof (index ↔ ordered map, induction over histories) + differential correspondence check on API results",
+    },
+    "C12": {
+        "text": "For every history: no panic site of apply_logical_op is reachable; refcount of each hash = number of keys mapped to it; known blobs = referenced hashes; unique_blobs/total_bytes equal what recompute_stats computes from scratch; each recorded size = content size. Lean theorems by induction over operations. " + _corr,
+        "design_ref": "DESIGN.md §7 C12, §4 P2",
+        "note": "Trusted: Lean kernel; Index.lean model; naturals for u32/u64 counters; restart/crash half tied by correspondence.",
+        "technique": "Lean 4 invariant proof (IdxInv preserved by apply_logical_op) + differential correspondence check",
+    },
+    "C07": {
+        "text": "The list of hashes returned for deletion is proved to be exactly those that lost their last reference, for every state and operation; abandoned transactions provably leave no file. That the store unlinks exactly that list and nothing else is tied by comparing cas/ and staging/ listings after every step with the model and with the oracle's set of referenced contents. " + _corr,
+        "design_ref": "DESIGN.md §7 C07",
+        "note": "Trusted: Lean kernel; Store.lean scripts for the filesystem half; quiescent, fault-free histories.",
+        "technique": "Lean 4 theorem on the unreferenced-hash list + differential correspondence on directory listings",
+    },
+    "C13": {
+        "text": "Frame theorem over the filesystem model: begin/write*/abort leaves every file other than the private staging file, every directory, untouched and removes the staging file — for every disk. " + _corr,
+        "design_ref": "DESIGN.md §7 C13",
+        "note": "Trusted: Lean kernel; Fs.lean semantics; memory untouched before finish by inspection + comparison.",
+        "technique": "Lean 4 frame lemma over the Fs model + differential correspondence on histories with aborts at every position",
+    },
+    "C02": {
+        "text": "Record-level theorem over ALL action sequences (appends, snapshot installs, prunes, opens, closes, crashes; every N): while open, memory = state after the logged history; close+open reproduces it and continues with a fresh version. Byte/syscall level tied by trace + on-disk-bytes + API comparison after every step and reopen. " + _corr,
+        "design_ref": "DESIGN.md §7 C02, §4 P3",
+        "note": "Trusted: Lean kernel; WalMachine mirrors the manager logic; Store.lean scripts ↔ actions by correspondence.",
+        "technique": "Lean 4 invariant proof over a record-level WAL state machine + differential correspondence incl. syscall traces",
+    },
+    "C03": {
+        "text": "Record-level theorem: after ANY prefix of ANY action sequence (crash anywhere, incl. during initialisation and nested inside recovery) open succeeds and yields exactly the state after the records appended so far (acked, or acked + the single in-flight record), never reusing a version. Byte level: kill-mode crash images at every mutating call, reopened by real code and model. " + _corr,
+        "design_ref": "DESIGN.md §7 C03, §4 P3",
+        "note": "Trusted: Lean kernel; process-kill crash model; scripts ↔ actions by trace correspondence; codec theorems C16/C10 connect records to bytes.",
+        "technique": "Lean 4 invariant proof (ghost history / recovery theorem) + crash-point enumeration differential check via LD_PRELOAD interposer",
+    },
+    "C20": {
+        "text": "Record-level invariant proved for every reachable state: strictly increasing never-reused versions, placement in segment (v-1)/N, ordered segments, snapshot = state up to its version, all logged records above it present. The Lean driver is the independent reader of the real bytes at every crash image. " + _corr,
+        "design_ref": "DESIGN.md §7 C20",
+        "note": "Trusted: as C03.",
+        "technique": "Lean 4 invariant proof over the WAL state machine + independent decoding of real on-disk bytes at every crash point",
+    },
 }
